@@ -1,7 +1,7 @@
 (* C13 — compile-time constant evaluation matches run-time (HLSL) semantics.  Property theorems only. *)
 From Coq Require Import List ZArith NArith Bool String Lia.
 From Flocq Require Import Core IEEE754.BinarySingleNaN.
-From RV Require Import EvalSem Evaluator EvaluatorProofs GenEvaluator.
+From RV Require Import EvalSem Evaluator EvaluatorProofs GenEvaluator EnumVals EnumValsProofs.
 Import ListNotations.
 Local Open Scope Z_scope.
 
@@ -47,6 +47,22 @@ Theorem C13_div_by_zero_not_constant : forall k a,
   ref_arith k ODiv a 0 = ZNotConst /\ ref_arith k ORem a 0 = ZNotConst.
 Proof. intros k a. destruct k; split; reflexivity. Qed.
 
+(* ---- enum values: for every first value the type checker can hand over (a bool, an untyped integer, an int or uint
+        inside its range) and every number of enumerators without an initialiser after it, the values the type checker
+        computes - typed while the sum fits, untyped beyond, then converted to the selected underlying type - are the
+        consecutive integers from the first value, exactly, in the underlying type the range of those integers
+        selects; there is no abort, and no type is selected exactly when the language has none ---- *)
+Theorem C13_enum_values_exact : forall first n,
+  enum_first_ok first = true -> enum_impl first n = enum_ref first n.
+Proof. exact enum_values_exact. Qed.
+
+Example C13_enum_example :
+  enum_impl (VInt KInt32 2147483647) 1 = EnumOk KUInt32 [2147483647; 2147483648] /\
+  enum_impl (VInt KUInt32 4294967295) 1 = EnumNoType /\
+  enum_impl (VBool true) 2 = EnumOk KInt32 [1; 2; 3] /\
+  enum_impl (VInt KIntLiteral (-2147483649)) 0 = EnumNoType.
+Proof. vm_compute. repeat split. Qed.
+
 (* ---- the reference on the boundary values named by the property (sanity of the trusted definitions) ---- *)
 Example C13_ref_int_max_plus_one : ref_arith KInt32 OAdd 2147483647 1 = ZOk (-2147483648).
 Proof. vm_compute. reflexivity. Qed.
@@ -73,3 +89,4 @@ Print Assumptions C13_eval_matches_hlsl.
 Print Assumptions C13_arith_rows_good.
 Print Assumptions C13_no_overflow_abort.
 Print Assumptions C13_div_by_zero_not_constant.
+Print Assumptions C13_enum_values_exact.
